@@ -53,5 +53,5 @@ func genTables(out string) error {
 	if err := genFieldsTable(out); err != nil {
 		return err
 	}
-	return nil
+	return genConstsTable(out)
 }
